@@ -99,6 +99,29 @@ func (p *Program) Func(rel, name string) *ssa.Function {
 	if sp == nil {
 		return nil
 	}
+	if k := strings.Index(name, "$"); k > 0 {
+		// function literal: Parent$N (ordinals as numbered by go/ssa)
+		parent := p.Func(rel, name[:k])
+		for parent != nil {
+			rest := name[k+1:]
+			n := rest
+			if j := strings.Index(rest, "$"); j >= 0 {
+				n = rest[:j]
+			}
+			var next *ssa.Function
+			for _, a := range parent.AnonFuncs {
+				if strings.TrimPrefix(a.Name(), parent.Name()+"$") == n {
+					next = a
+				}
+			}
+			if next == nil || n == rest {
+				return next
+			}
+			parent = next
+			k += len(n) + 1
+		}
+		return nil
+	}
 	if !strings.HasPrefix(name, "(") {
 		return sp.Func(name)
 	}
